@@ -5,7 +5,7 @@
    value-exact), on dumps from a grammar.  plistlib.loads is a parameter. *)
 From Coq Require Import String NArith Arith List Bool.
 From Kd Require Import theories.Base theories.Kevent gen.GenKevent theories.Container theories.ContainerV2
-  theories.ContainerV3 theories.ContainerV3RT theories.OsLogBase theories.OsLog theories.V3Meta.
+  theories.ContainerV3 theories.ContainerV3RT theories.OsLogBase theories.OsLog theories.V3Meta gen.GenContainer theories.ContainerRefine.
 Import ListNotations.
 Open Scope N_scope.
 
@@ -68,3 +68,13 @@ Example c03_nontrivial :
   map k_timestamp (o_events o) = [1; 2; 3] /\ o_threadmap o = Some [(7, 1, [97])] /\
   o_blocks o = Some [(TAG_TRACE_CODES, [48; 120])] /\ o_err o = None.
 Proof. vm_compute. repeat split; reflexivity. Qed.
+
+(* the markers and tags of the model are those of the code (regenerated from kd_buf_parser.py on every run) *)
+Theorem c03_code_constants :
+  gen_TRACEV3_STACKSHOT_END = STACKSHOT_END /\ gen_TRACEV3_THREADMAP_TAG = THREADMAP_TAG /\
+  gen_TRACEV3_EVENTS_TAG = EVENTS_TAG /\ gen_TRACEV3_MORE_EVENTS = MORE_EVENTS /\
+  gen_TRACEV3_DYLD_MODULES = TAG_DYLD_MODULES /\ gen_TRACEV3_TRACE_CODES = TAG_TRACE_CODES /\
+  gen_TRACEV3_PROCESSES = TAG_PROCESSES /\ gen_TRACEV3_LOG_EVENTS = TAG_LOG_EVENTS /\
+  gen_TRACEV3_LOG_STRINGS = TAG_LOG_STRINGS /\ gen_TRACEV3_KERNEL_EXTENSIONS = TAG_KERNEL_EXTENSIONS /\
+  gen_TRACEV3_IMAGES = TAG_IMAGES.
+Proof. exact constants_refine. Qed.
